@@ -10,6 +10,7 @@ import ast
 CONTRACTS = {}      # qualname -> Contract
 LEMMAS = {}         # name -> Lemma
 RECORDS = {}        # class name -> {field: type string}
+DICT_RECORDS = set()  # record classes that are dicts with a fixed key set (obj['key'] reads field key)
 
 
 class LoopSpec(object):
@@ -44,7 +45,7 @@ class Contract(object):
         self.qualname = qualname
         mod, _, fn = qualname.partition(':')
         self.module = mod
-        self.func = fn
+        self.func = fn.split('#')[0]       # 'f#region-name': a second contract on a region of f
         self.params = dict(params)
         self.returns = returns
         self.requires = _named(requires, 'pre')
@@ -102,4 +103,10 @@ def lemma(name, **kw):
 
 def record(name, **fields):
     RECORDS[name] = dict(fields)
+    return name
+
+
+def dict_record(name, **fields):
+    RECORDS[name] = dict(fields)
+    DICT_RECORDS.add(name)
     return name
